@@ -62,6 +62,8 @@ Shape0(c) == c.cmd \o "(" \o (IF LeadingCommand(c) THEN "leading-command" ELSE "
 Rule(c, clause, what, t) ==
     IF clause \in {"Property", "Dependencies", "TargetKind"} /\ t # "" /\ t \notin Subjects(c)
         THEN "changes-a-target-it-does-not-name"
+    ELSE IF c.cmd = "set_property" /\ HasArg(c.args, "APPEND") /\ Cardinality(Subjects(c)) >= 2 /\ clause = "Property"
+        THEN "append-on-several-targets"
     ELSE IF c.cmd = "set" /\ ~HasArg(c.args, "CACHE") /\ ValueArgs(c) = "/n" THEN "set-with-several-values"
     ELSE IF c.cmd = "set" /\ HasArg(c.args, "CACHE") /\ ~HasArg(c.args, "FORCE") THEN "set-cache-without-force"
     ELSE IF c.cmd = "set_property" /\ HasArg(c.args, "APPEND_STRING") THEN "set_property-append_string"
